@@ -1,5 +1,6 @@
 //! h-conn: harnesses that need qconnection pieces (no network).
 mod c01;
+mod c03c;
 mod c04;
 mod c06;
 mod c12;
@@ -14,6 +15,7 @@ fn main() {
     let args = mc_core::Args::parse();
     let code = match args.property.as_str() {
         "C01" => c01::run(&args, "c01/"),
+        "C03c" => c03c::run(&args),
         "C04" => c04::run(&args),
         "C06" => c06::run(&args),
         "C14" => c14::run(&args),
